@@ -781,18 +781,17 @@ func (wf *WALFileType) SyncWAL(walRefresh, primaryRefresh time.Duration, walRota
 
 // RequestFlush requests WAL Flush to the WAL writer goroutine
 // if it exists, or just does the work in the same goroutine otherwise.
-// The function blocks if there are no current queued flushes, and
-// returns if there is already one queued which will handle the data
-// present in the write channel, as it will flush as soon as possible.
+// The function always queues its own request and blocks until the WAL
+// writer has answered it: the answering flush starts after the request
+// was received, so it covers everything the caller put in the write
+// channel. (A flush request queued earlier by another caller gives no
+// such guarantee to this caller until it has completed, so returning
+// early on a non-empty flushChannel would acknowledge unflushed writes.)
 func (wf *WALFileType) RequestFlush() {
 	if !haveWALWriter {
 		if err := wf.FlushToWAL(); err != nil {
 			log.Error("failed to flush WAL", zap.Error(err))
 		}
-		return
-	}
-	// if there's already a queued flush, no need to queue another
-	if len(wf.txnPipe.flushChannel) > 0 {
 		return
 	}
 	f := make(chan struct{})
